@@ -312,7 +312,11 @@ func guardedNormalisation(ins ssa.Instruction) (string, bool) {
 // dependsOnlyOnObject: v is computed from constants, globals, fresh allocations and loads of
 // fields of base only.
 func dependsOnlyOnObject(v ssa.Value, base ssa.Value) (string, bool) {
+	baseSlice := backwardSlice(base, 100) // what the object pointer itself is derived from (x in x.p.f)
 	for x := range backwardSlice(v, 400) {
+		if baseSlice[x] {
+			continue
+		}
 		switch y := x.(type) {
 		case *ssa.Parameter:
 			if !sameBase(y, base) {
@@ -339,6 +343,9 @@ func dependsOnlyOnObject(v ssa.Value, base ssa.Value) (string, bool) {
 						continue
 					}
 					break
+				}
+				if baseSlice[root] {
+					continue
 				}
 				switch r := root.(type) {
 				case *ssa.Global, *ssa.Alloc, *ssa.MakeSlice:
